@@ -114,8 +114,9 @@ theorem objective_ind {I : Inst} {σ : Var → Int} {plan : Plan} (hI : Ind I σ
     rw [hall]
     apply isum_map_congr
     intro t ht
+    unfold rewOf
     by_cases hr : I.running t = true
-    · simp [Inst.rewardE, hr]
+    · simp [Inst.rewardE, hr, hc]
     · have hr' : I.running t = false := by simpa using hr
       have htn : t ∈ I.nonRunning := mem_nonRunning.mpr ⟨(mem_act.mp ht).1, (mem_act.mp ht).2, hr'⟩
       simp only [Inst.rewardE, hr', Bool.false_eq_true, if_false, LinExpr.eval_ofVar, Bool.and_false]
@@ -127,6 +128,8 @@ theorem objective_ind {I : Inst} {σ : Var → Int} {plan : Plan} (hI : Ind I σ
     apply isum_map_congr
     intro t ht
     have hta : t ∈ I.act := (List.mem_filter.mp ht).1
+    unfold rewOf
+    simp only [hc', Bool.false_and, Bool.false_eq_true, if_false]
     exact rewardSum_ind hI hta
 
 /-- **The objective of a feasible point is the reward of its decoded plan.** -/
